@@ -794,6 +794,27 @@ func (c *EvalCtx) evalCall(e *Expr) *V {
 			}
 			return vInt(selN(st.comp("ncallr", 2, "Int"), []string{eng.strID("call:" + nm), a.Val}), types.Typ[types.Int])
 		}
+	case "newCallsOn":
+		// newCallsOn("Iface.Method", recv): invocations on that receiver since the pre-state (receiver evaluated now)
+		argc(2)
+		{
+			if e.Args[0].Op != "str" {
+				c.fail("newCallsOn(\"Iface.Method\", recv)")
+			}
+			if c.old == nil {
+				c.fail("newCallsOn() needs a pre-state")
+			}
+			nm := e.Args[0].Str
+			if strings.Count(nm, ".") == 1 {
+				nm = c.pkg.Name() + "." + nm
+			}
+			a := c.eval(e.Args[1])
+			if a.K != KIface {
+				c.fail("newCallsOn expects an interface receiver")
+			}
+			id := eng.strID("call:" + nm)
+			return vInt("(- "+selN(st.comp("ncallr", 2, "Int"), []string{id, a.Val})+" "+selN(c.old.comp("ncallr", 2, "Int"), []string{id, a.Val})+")", types.Typ[types.Int])
+		}
 	case "visited":
 		// visited(k): key k has already been produced by the map range loop this invariant belongs to
 		argc(1)
